@@ -238,7 +238,7 @@ impl Out {
         if n > 20 {
             return;
         }
-        let dir = format!("{}/replays/C15", VERIF);
+        let dir = format!("{}/replays/C15", verif_dir());
         let _ = std::fs::create_dir_all(&dir);
         let path = format!("{}/{}-{}-{:02}.json", dir, self.tier, clause, n);
         std::fs::write(&path, serde_json::to_string_pretty(&json!({"property": "C15", "clause": clause, "case": case, "detail": detail})).unwrap()).unwrap();
@@ -656,8 +656,8 @@ pub fn check(tier: &str, std_bin: &str) -> i32 {
         "wall_s": (wall * 1000.0).round() / 1000.0,
         "violations": viol,
     });
-    let _ = std::fs::create_dir_all(format!("{}/evidence", VERIF));
-    std::fs::write(format!("{}/evidence/C15.json", VERIF), serde_json::to_string_pretty(&doc).unwrap() + "\n").unwrap();
+    let _ = std::fs::create_dir_all(format!("{}/evidence", verif_dir()));
+    std::fs::write(format!("{}/evidence/C15.json", verif_dir()), serde_json::to_string_pretty(&doc).unwrap() + "\n").unwrap();
     println!("C15 {}: schedules={} model_states={} traces_validated={} violations={} wall={:.1}s", tier, schedules_total, states, replayed_total + walked, viol, wall);
     if viol > 0 {
         1
